@@ -112,12 +112,12 @@ Fixpoint has_return (s : stmt) : bool :=
   | _ => false
   end.
 
-(* does s declare a local (loop counter, catch variable)? *)
-Fixpoint no_decl (s : stmt) : bool :=
+(* s declares no local (loop counter, catch variable) and does not pop locals (break, continue) *)
+Fixpoint flat (s : stmt) : bool :=
   match s with
-  | Seq a b => no_decl a && no_decl b
-  | Try _ _ _ | Loop _ _ => false
-  | IfIter _ s => no_decl s
+  | Seq a b => flat a && flat b
+  | Try _ _ _ | Loop _ _ | Break | Continue => false
+  | IfIter _ s => flat s
   | _ => true
   end.
 
@@ -192,7 +192,7 @@ Section Classes.
                      k_loop := match k_loop k with LOk => if hf then LBad EarlyExitSkipsFinally else LOk | l => l end;
                      k_infin := false; k_fin_nocatch := false |} in
         let kf := {| k_ret := RBad AbruptExitFromFinally;
-                     k_loop := match k_loop k with LNone => LNone | _ => LBad AbruptExitFromFinally end;
+                     k_loop := LBad AbruptExitFromFinally;
                      k_infin := true; k_fin_nocatch := negb (is_some c) |} in
         orelse (known_class_stmt kb b)
        (orelse (match c with
